@@ -97,11 +97,19 @@ def case_strategy():
                 '[compiler.offcc]\n[[compiler.offcc.parser]]\nflags = ["-foffload-targets"]\naction = "store_split"\nsep = ","\nformat = "off-$value"\ndest = "passes"\n'
                 '[[compiler.offcc.passes]]\nname = "off-amd"\ninclude_paths = ["amd_inc"]\n[[compiler.offcc.passes]]\nname = "off-nv"\ninclude_paths = ["nv_inc"]\n'
                 '[[compiler.offcc.passes]]\nname = "off-x"\ninclude_paths = ["x_inc"]\n'
+                # two flags enabling modes that define the same macro: which one wins must not depend on the hash seed
+                '[[compiler.offcc.parser]]\nflags = ["-mwide"]\naction = "append_const"\ndest = "modes"\nconst = "wide"\n'
+                '[[compiler.offcc.parser]]\nflags = ["-mnarrow"]\naction = "append_const"\ndest = "modes"\nconst = "narrow"\n'
+                '[[compiler.offcc.parser]]\nflags = ["-mtiny"]\naction = "append_const"\ndest = "modes"\nconst = "tiny"\n'
+                '[[compiler.offcc.modes]]\nname = "wide"\ndefines = ["SIMD_WIDTH=512"]\n'
+                '[[compiler.offcc.modes]]\nname = "narrow"\ndefines = ["SIMD_WIDTH=128"]\n'
+                '[[compiler.offcc.modes]]\nname = "tiny"\ndefines = ["SIMD_WIDTH=64"]\n'
             )
             for tag in ("amd", "nv", "x"):
                 c["tree"][f"{tag}_inc/t.h"] = {"items": [["define", f"T_{tag.upper()}", "1"], ["code", 1]], "style": [0]}
-            c["tree"]["off.c"] = {"items": [["include", "angle", "t.h"]] + [["chain", [["ifdef", f"T_{t}", [["code", 1]]]], [["code", 1]]] for t in ("AMD", "NV", "X")], "style": [0]}
-            c["platforms"][draw(st.sampled_from(plist))].append({"file": "off.c", "defines": [], "dirs": [], "forced": [], "compiler": "offcc", "extra_flags": ["-foffload-targets=" + ",".join(draw(st.permutations(["amd", "nv", "x"]))[: draw(st.integers(2, 3))])]})
+            c["tree"]["off.c"] = {"items": [["include", "angle", "t.h"]] + [["chain", [["ifdef", f"T_{t}", [["code", 1]]]], [["code", 1]]] for t in ("AMD", "NV", "X")]
+                                  + [["chain", [["if", ["cmp", "SIMD_WIDTH", "==", 512], [["code", 1]]], ["elif", ["cmp", "SIMD_WIDTH", "==", 128], [["code", 1]]]], [["code", 1]]]], "style": [0]}
+            c["platforms"][draw(st.sampled_from(plist))].append({"file": "off.c", "defines": [], "dirs": [], "forced": [], "compiler": "offcc", "extra_flags": ["-foffload-targets=" + ",".join(draw(st.permutations(["amd", "nv", "x"]))[: draw(st.integers(2, 3))])] + list(draw(st.permutations(["-mwide", "-mnarrow", "-mtiny"]))[: draw(st.integers(0, 3))])})
         # a CUDA kernel compiled by several platforms for different architectures (the option that
         # replaces the default architecture is parsed once per command)
         if draw(st.booleans()):
